@@ -438,6 +438,12 @@ def through_the_binary(ctx, rng, n):
             else:
                 sp = nm
             spelled.append(sp)
+        if k % 3 == 0:
+            # (every third list goes through a plain 'depfile =' statement, see below: its first name is a generated header in a
+            # directory of its own, spelled in each of the ways in turn)
+            nm0 = (b"inc%d/gen.h" % k) if (k // 3) % 2 else (b"g%d/inc/gen_%d.h" % (k, k))
+            names[0] = nm0
+            spelled[0] = [b"./" + nm0, nm0.replace(b"/", b"//", 1), b"sub/../" + nm0, nm0.replace(b"/", b"/./", 1), nm0][(k // 3) % 5]
         lay = r.choice(LAYOUTS)
         content = layout([b"out.o"], spelled, dialect, lay, r.choice((b"\n", b"\r\n")))
         t = e2e.Tree()
@@ -448,6 +454,33 @@ def through_the_binary(ctx, rng, n):
                 f.write("// in\n")
             with open(os.path.join(t.d, "build.ninja"), "w") as f:
                 f.write("rule cc\n  command = cp pre.d out.o.d && cp in.c out.o\n  deps = gcc\n  depfile = out.o.d\nbuild out.o: cc in.c\n")
+            # plain 'depfile =' statements (no deps log) read the file at the start of every run.  What a name was read back as
+            # shows in what ninja does: one of the dependencies is itself made by a statement; when its source changes, the name
+            # in the depfile - however it is spelled there - has to be that statement's output, and the consumer runs again
+            import re as _re
+            if k % 3 == 0 and _re.fullmatch(rb"[A-Za-z0-9][A-Za-z0-9._+-]*(/[A-Za-z0-9][A-Za-z0-9._+-]*)*", names[0]):
+                gname = names[0].decode("latin-1")
+                os.makedirs(os.path.join(t.d, os.path.dirname(gname) or "."), exist_ok=True)
+                with open(os.path.join(t.d, "gen.src"), "w") as f:
+                    f.write("1\n")
+                with open(os.path.join(t.d, "build.ninja"), "w") as f:
+                    f.write("rule cc\n  command = cp pre.d out.o.d && cat in.c %s > out.o\n  depfile = out.o.d\n"
+                            "rule gen\n  command = cp gen.src %s\nbuild %s: gen gen.src\nbuild out.o: cc in.c || %s\n" % (gname, gname, gname, gname))
+                rc, so, se = t.run(["out.o"])
+                txt = (so + se).decode("latin-1")
+                rep = {"content_hex": content.hex(), "through": "plain depfile, generated dependency"}
+                if util.san_signature(txt):
+                    return ("C15/through-the-binary/sanitizer/" + util.san_signature(txt), "depfile %r: %s" % (util.show(content), txt[-800:]), rep)
+                if rc != 0:
+                    return ("C15/through-the-binary/build-failed/%s/%s" % (dialect, lay), "depfile %r: %s" % (util.show(content), txt[-300:]), rep)
+                t.write("gen.src", "2\n")
+                rc, so, se = t.run(["out.o"])
+                got = t.read("out.o") or b""
+                if rc != 0 or not got.endswith(b"2\n"):
+                    return ("C15/through-the-binary/plain-depfile-name-not-the-generated-file/%s" % dialect,
+                            "depfile %r names %r, which is the output %r of another statement; after that statement's source changed ninja out.o gave rc=%s and out.o ends %r: %s"
+                            % (util.show(content), util.show(spelled[0]), gname, rc, got[-8:], (so + se).decode("latin-1")[-300:]), rep)
+                return ("ok-plain", spelled[0] != names[0], 1)
             rc, so, se = t.run(["out.o"])
             rep = {"content_hex": content.hex(), "through": "ninja -t deps"}
             txt = (so + se).decode("latin-1")
@@ -475,7 +508,11 @@ def through_the_binary(ctx, rng, n):
             ctx.inconclusive += 1
             continue
         ctx.evaluations += 1
-        if r_[0] == "ok":
+        if r_[0] == "ok-plain":
+            ctx.count("through_the_binary_plain_depfile_generated_dependency_ok")
+            if r_[1]:
+                ctx.count("through_the_binary_plain_depfile_respelled")
+        elif r_[0] == "ok":
             ctx.count("through_the_binary_lists_ok")
             ctx.count("through_the_binary_names", r_[2])
             if r_[1]:
